@@ -6,15 +6,18 @@
  *       reply: the octets the extender answers every request with (file transport; the context's first request has id 1);
  *              "-" = an empty reply, "none" = no extender reachable (the file does not exist)
  *       pubfile: octets of the publications file handed over as context->userPublicationsFile, "-" = none (then the
- *              context has to fetch one, which fails offline)
+ *              context has to fetch one, which fails offline), or ctx:<anchors>:<oid>:<value-hex>:<t0|t1>:<file-hex>: the context fetches
+ *              this file through file:// and PKI-verifies it (anchors ca | other from $VERIF_PKI_DIR, one certificate constraint;
+ *              t0 / t1 is the generator's note whether that makes it trusted)
  *     => P<status> | V<status>:<result>:<error>
  */
 #include "common.h"
 #include <unistd.h>
 #include <ksi/ksi.h>
 #include <ksi/policy.h>
+#include <ksi/pkitruststore.h>
 
-static char path[64];
+static char path[64], pfpath[64];
 static const char *tmp_with(const unsigned char *b, size_t n) {
 	int fd; FILE *f;
 	strcpy(path, "/tmp/verif_c04_XXXXXX");
@@ -61,7 +64,23 @@ static void do_line(char *work, const char *orig) {
 				free(im);
 				KSI_PublicationData_new(ctx, &up); KSI_PublicationData_setTime(up, t); KSI_PublicationData_setImprint(up, h);
 			}
-			if (strcmp(w[8], "-")) {
+			if (!strncmp(w[8], "ctx:", 4)) {
+				/* the context fetches the file itself (file://) and decides about its PKI signature: ctx:<anchors>:<oid>:<value-hex>:<t0|t1>:<file-hex> */
+				char *f[6]; int nf = 0; char *p = w[8]; size_t pl, vl; unsigned char *pb, *vb; int fd; FILE *fh; KSI_PKITruststore *pki = NULL; char ca[512], puri[96];
+				static char oid[128], val[256]; KSI_CertConstraint cons[2]; const char *d = getenv("VERIF_PKI_DIR");
+				while (nf < 6) { f[nf++] = p; p = strchr(p, ':'); if (!p) break; *p++ = 0; }
+				if (nf < 6) { printf("BAD-OP"); goto done; }
+				pb = unhex(f[5], &pl); vb = unhex(f[3], &vl);
+				strcpy(pfpath, "/tmp/verif_c04p_XXXXXX"); fd = mkstemp(pfpath); fh = fdopen(fd, "wb"); if (pl) fwrite(pb, 1, pl, fh); fclose(fh);
+				snprintf(puri, sizeof(puri), "file://%s", pfpath);
+				KSI_CTX_setPublicationUrl(ctx, puri);
+				snprintf(ca, sizeof(ca), "%s/%s.pem", d ? d : ".", f[1]);
+				KSI_PKITruststore_new(ctx, 0, &pki); KSI_PKITruststore_addLookupFile(pki, ca); KSI_CTX_setPKITruststore(ctx, pki);
+				snprintf(oid, sizeof(oid), "%s", f[2]); if (vl > 255) vl = 255; memcpy(val, vb, vl); val[vl] = 0;
+				memset(cons, 0, sizeof(cons)); cons[0].oid = oid; cons[0].val = val;
+				KSI_CTX_setDefaultPubFileCertConstraints(ctx, cons);
+				free(pb); free(vb);
+			} else if (strcmp(w[8], "-")) {
 				size_t pl; unsigned char *pb = unhex(w[8], &pl);
 				r = KSI_PublicationsFile_parse(ctx, pb, pl, &pf); free(pb);
 				if (r != KSI_OK) { printf("BAD-PUBFILE%d", r); goto done; }
@@ -77,6 +96,7 @@ static void do_line(char *work, const char *orig) {
 done:
 		KSI_PublicationsFile_free(pf); KSI_PublicationData_free(up); KSI_Signature_free(sig); KSI_CTX_free(ctx);
 		if (strcmp(w[7], "none")) unlink(uri + 7);
+		if (pfpath[0]) { unlink(pfpath); pfpath[0] = 0; }
 		free(raw); free(key0); free(key);
 	} else printf("BAD-OP");
 }
